@@ -354,3 +354,380 @@ example : (read exFS 40 40 (render []) [] "/b".toList "f".toList 0 3 EntryPoint.
   decide
 
 end IrVerif.Path
+
+/-! ### calls on a tensor with cached state, sequences of calls -/
+namespace IrVerif.Path
+
+theorem loadStep_events (fs : FS) (kfuel fuel : Nat) (cwdS : Str) (cwd : Loc) (base loc : Str)
+    (offset length : Nat) (st : TState) (ep : EntryPoint) :
+    (loadStep fs kfuel fuel cwdS cwd base loc offset length st).2.1 =
+      (read fs kfuel fuel cwdS cwd base loc offset length ep).2 := by
+  have hep := (C10_all_entry_points fs kfuel fuel cwdS cwd base loc offset length ep _ rfl).2.2.2
+    EntryPoint.numpy
+  unfold loadStep
+  simp only
+  split
+  · exact hep
+  · split
+    · exact hep
+    · split <;> exact hep
+
+theorem openedIno_event (fs : FS) (kfuel fuel : Nat) (cwdS : Str) (cwd : Loc) (base loc : Str)
+    (offset length : Nat) (ep : EntryPoint) (i : Nat)
+    (h : openedIno fs kfuel fuel cwdS cwd base loc = some i) :
+    Ev.openEv (tensorPath base loc) (some i) ∈
+      (read fs kfuel fuel cwdS cwd base loc offset length ep).2 := by
+  unfold openedIno at h
+  unfold read
+  cases hv : checkContainment fs kfuel fuel cwdS cwd base loc <;> simp only [hv] at h ⊢ <;>
+    first
+    | exact absurd h (by simp)
+    | (rw [h]; simp)
+
+/-- the state after a load maps what was mapped before, or the inode this very load opened -/
+theorem loadStep_raw (fs : FS) (kfuel fuel : Nat) (cwdS : Str) (cwd : Loc) (base loc : Str)
+    (offset length : Nat) (st : TState) (i : Nat)
+    (h : (loadStep fs kfuel fuel cwdS cwd base loc offset length st).2.2.raw = some i) :
+    st.raw = some i ∨ openedIno fs kfuel fuel cwdS cwd base loc = some i := by
+  unfold loadStep at h
+  simp only at h
+  split at h
+  · exact Or.inl h
+  · rename_i j hj
+    split at h
+    · exact Or.inl h
+    · split at h <;> (simp only [Option.some.injEq] at h; subst h; exact Or.inr hj)
+
+theorem loadThen_events (fs : FS) (kfuel fuel : Nat) (cwdS : Str) (cwd : Loc) (base loc : Str)
+    (offset length : Nat) (st : TState) (fin : TState → TState) :
+    (loadThen fs kfuel fuel cwdS cwd base loc offset length st fin).2.1 =
+      (loadStep fs kfuel fuel cwdS cwd base loc offset length st).2.1 := by
+  unfold loadThen
+  simp only
+  split <;> rfl
+
+/-- **C10_call_events**: whatever the cached state, the events of one call of an entry point are
+either none at all (only for a non-`tofile` entry point of a tensor that is already mapped: it is
+served from the mapping and opens nothing), or exactly the check-then-open events of a guarded
+read (`read`): the check is made on EVERY call that opens the path; `tofile` always is such a
+call and its result does not depend on the cached state. -/
+theorem C10_call_events (fs : FS) (kfuel fuel : Nat) (cwdS : Str) (cwd : Loc) (base loc : Str)
+    (offset length : Nat) (ep : EntryPoint) (st : TState) :
+    ((call fs kfuel fuel cwdS cwd base loc offset length ep st).2.1 = [] ∧
+        ep ≠ EntryPoint.tofile ∧ st.raw ≠ none) ∨
+    (call fs kfuel fuel cwdS cwd base loc offset length ep st).2.1 =
+        (read fs kfuel fuel cwdS cwd base loc offset length ep).2 := by
+  have hl := loadStep_events fs kfuel fuel cwdS cwd base loc offset length st ep
+  have ht := loadThen_events fs kfuel fuel cwdS cwd base loc offset length st
+  have hep := (C10_all_entry_points fs kfuel fuel cwdS cwd base loc offset length EntryPoint.tofile _ rfl).2.2.2 ep
+  cases ep with
+  | tofile => right; rfl
+  | tobytes =>
+    unfold call
+    cases hr : st.raw with
+    | some i => left; simp
+    | none => right; simp only; rw [ht, hl]
+  | numpy =>
+    unfold call
+    simp only
+    split
+    · rename_i i ha hr; left; simp [hr]
+    · right; rw [ht, hl]
+  | array =>
+    unfold call
+    simp only
+    split
+    · rename_i i ha hr; left; simp [hr]
+    · right; rw [ht, hl]
+  | serializeRaw =>
+    unfold call
+    simp only
+    split
+    · rename_i i ha hr; left; simp [hr]
+    · right; rw [ht, hl]
+
+theorem read_ok (fs : FS) (kfuel fuel : Nat) (cwdS : Str) (cwd : Loc) (base loc : Str)
+    (offset length : Nat) (ep : EntryPoint) (bytes : List Nat)
+    (h : (read fs kfuel fuel cwdS cwd base loc offset length ep).1 = ReadResult.ok bytes) :
+    ∃ i, openedIno fs kfuel fuel cwdS cwd base loc = some i ∧
+      bytes = sliceOf (fs.data i) offset length := by
+  unfold read at h
+  unfold openedIno
+  cases hv : checkContainment fs kfuel fuel cwdS cwd base loc <;> simp only [hv] at h ⊢ <;>
+    first
+    | exact absurd h (by simp)
+    | (cases ho : openFile fs kfuel cwd (tensorPath base loc) with
+       | none => simp [ho] at h
+       | some i =>
+         simp only [ho] at h
+         exact ⟨i, rfl, (produce_ok _ _ _ _ _ h).1⟩)
+
+theorem loadStep_ok (fs : FS) (kfuel fuel : Nat) (cwdS : Str) (cwd : Loc) (base loc : Str)
+    (offset length : Nat) (st : TState)
+    (h : (loadStep fs kfuel fuel cwdS cwd base loc offset length st).1 = true) :
+    ∃ i, openedIno fs kfuel fuel cwdS cwd base loc = some i ∧
+      (loadStep fs kfuel fuel cwdS cwd base loc offset length st).2.2 = { raw := some i, arr := true } := by
+  unfold loadStep at h ⊢
+  cases hoi : openedIno fs kfuel fuel cwdS cwd base loc with
+  | none => simp [hoi] at h
+  | some j =>
+    simp only [hoi] at h ⊢
+    by_cases h1 : fs.data j = []
+    · simp [h1] at h
+    · by_cases h2 : (fs.data j).length < offset + length
+      · simp [h1, h2] at h
+      · exact ⟨j, rfl, by simp [h1, h2]⟩
+
+theorem loadThen_ok (fs : FS) (kfuel fuel : Nat) (cwdS : Str) (cwd : Loc) (base loc : Str)
+    (offset length : Nat) (st : TState) (fin : TState → TState) (bytes : List Nat)
+    (h : (loadThen fs kfuel fuel cwdS cwd base loc offset length st fin).1 = ReadResult.ok bytes) :
+    ∃ i, openedIno fs kfuel fuel cwdS cwd base loc = some i ∧
+      bytes = sliceOf (fs.data i) offset length := by
+  unfold loadThen at h
+  simp only at h
+  split at h
+  · rename_i i h1 h2
+    obtain ⟨j, hj, hst⟩ := loadStep_ok _ _ _ _ _ _ _ _ _ _ h1
+    rw [hst] at h2
+    simp only [Option.some.injEq] at h2
+    subst h2
+    simp only [ReadResult.ok.injEq] at h
+    exact ⟨j, hj, h.symm⟩
+  · simp at h
+
+theorem loadThen_raw (fs : FS) (kfuel fuel : Nat) (cwdS : Str) (cwd : Loc) (base loc : Str)
+    (offset length : Nat) (st : TState) (fin : TState → TState)
+    (hfin : ∀ s i, (fin s).raw = some i → s.raw = some i) (i : Nat)
+    (h : (loadThen fs kfuel fuel cwdS cwd base loc offset length st fin).2.2.raw = some i) :
+    st.raw = some i ∨ openedIno fs kfuel fuel cwdS cwd base loc = some i := by
+  unfold loadThen at h
+  simp only at h
+  split at h
+  · exact loadStep_raw _ _ _ _ _ _ _ _ _ _ _ (hfin _ _ h)
+  · exact loadStep_raw _ _ _ _ _ _ _ _ _ _ _ h
+
+/-- **C10_call_open_safe**: with a non-empty base directory, every file opened by ANY call of any
+entry point, whatever the tensor's cached state (mapped or not), is a safe open. -/
+theorem C10_call_open_safe (fs : FS) (kfuel fuel : Nat) (cwd : Loc) (hcwd : RealDir fs cwd)
+    (hfuel : kfuel ≤ fuel) (base loc : Str) (offset length : Nat) (ep : EntryPoint) (st : TState)
+    (hb : base ≠ []) (p : Str) (i : Nat)
+    (h : Ev.openEv p (some i) ∈ (call fs kfuel fuel (render cwd) cwd base loc offset length ep st).2.1) :
+    p = tensorPath base loc ∧ SafeOpen fs kfuel fuel cwd base loc i := by
+  rcases C10_call_events fs kfuel fuel (render cwd) cwd base loc offset length ep st with ⟨he, _, _⟩ | he
+  · rw [he] at h; simp at h
+  · rw [he] at h
+    exact C10_open_safe fs kfuel fuel cwd hcwd hfuel base loc offset length ep hb p i h
+
+/-- **C10_call_result**: bytes returned by a call are the requested slice of the inode this call
+opened (after its own check), or, when the call opened nothing, of the inode the tensor had mapped
+before; and the inode mapped after the call is the one mapped before or the one this call opened. -/
+theorem C10_call_result (fs : FS) (kfuel fuel : Nat) (cwdS : Str) (cwd : Loc) (base loc : Str)
+    (offset length : Nat) (ep : EntryPoint) (st : TState) :
+    (∀ bytes, (call fs kfuel fuel cwdS cwd base loc offset length ep st).1 = ReadResult.ok bytes →
+      ∃ i, bytes = sliceOf (fs.data i) offset length ∧
+        (Ev.openEv (tensorPath base loc) (some i) ∈
+            (call fs kfuel fuel cwdS cwd base loc offset length ep st).2.1 ∨
+          ((call fs kfuel fuel cwdS cwd base loc offset length ep st).2.1 = [] ∧ st.raw = some i))) ∧
+    (∀ i, (call fs kfuel fuel cwdS cwd base loc offset length ep st).2.2.raw = some i →
+      st.raw = some i ∨ Ev.openEv (tensorPath base loc) (some i) ∈
+        (call fs kfuel fuel cwdS cwd base loc offset length ep st).2.1) := by
+  have hev := fun i (h : openedIno fs kfuel fuel cwdS cwd base loc = some i) =>
+    openedIno_event fs kfuel fuel cwdS cwd base loc offset length ep i h
+  have hl := loadStep_events fs kfuel fuel cwdS cwd base loc offset length st ep
+  have ht := loadThen_events fs kfuel fuel cwdS cwd base loc offset length st
+  have hfinid : ∀ (s : TState) (i : Nat), (id s).raw = some i → s.raw = some i := fun _ _ h => h
+  cases ep with
+  | tofile =>
+    refine ⟨?_, fun i h => Or.inl h⟩
+    intro bytes h
+    obtain ⟨i, hi, hb⟩ := read_ok _ _ _ _ _ _ _ _ _ _ _ h
+    exact ⟨i, hb, Or.inl (hev i hi)⟩
+  | tobytes =>
+    unfold call
+    cases hr : st.raw with
+    | some j =>
+      simp only
+      refine ⟨?_, fun i h => Or.inl (hr ▸ h)⟩
+      intro bytes h
+      simp only [ReadResult.ok.injEq] at h
+      exact ⟨j, h.symm, Or.inr ⟨by simp, by simp⟩⟩
+    | none =>
+      simp only
+      refine ⟨?_, ?_⟩
+      · intro bytes h
+        obtain ⟨i, hi, hb⟩ := loadThen_ok _ _ _ _ _ _ _ _ _ _ _ _ h
+        exact ⟨i, hb, Or.inl (by rw [ht, hl]; exact hev i hi)⟩
+      · intro i h
+        rcases loadThen_raw _ _ _ _ _ _ _ _ _ _ _ hfinid i h with h' | h'
+        · rw [hr] at h'; exact absurd h' (by simp)
+        · exact Or.inr (by rw [ht, hl]; exact hev i h')
+  | numpy =>
+    unfold call
+    simp only
+    have hfin : ∀ (s : TState) (i : Nat),
+        ((fun (s : TState) => if EntryPoint.numpy = EntryPoint.serializeRaw then TState.fresh else s) s).raw
+          = some i → s.raw = some i := by
+      intro s i h; simpa using h
+    split
+    · rename_i j ha hr
+      refine ⟨?_, ?_⟩
+      · intro bytes h
+        simp only [ReadResult.ok.injEq] at h
+        exact ⟨j, h.symm, Or.inr ⟨rfl, hr⟩⟩
+      · intro i h; exact Or.inl (hfin _ _ h)
+    · refine ⟨?_, ?_⟩
+      · intro bytes h
+        obtain ⟨i, hi, hb⟩ := loadThen_ok _ _ _ _ _ _ _ _ _ _ _ _ h
+        exact ⟨i, hb, Or.inl (by rw [ht, hl]; exact hev i hi)⟩
+      · intro i h
+        rcases loadThen_raw _ _ _ _ _ _ _ _ _ _ _ hfin i h with h' | h'
+        · exact Or.inl h'
+        · exact Or.inr (by rw [ht, hl]; exact hev i h')
+  | array =>
+    unfold call
+    simp only
+    have hfin : ∀ (s : TState) (i : Nat),
+        ((fun (s : TState) => if EntryPoint.array = EntryPoint.serializeRaw then TState.fresh else s) s).raw
+          = some i → s.raw = some i := by
+      intro s i h; simpa using h
+    split
+    · rename_i j ha hr
+      refine ⟨?_, ?_⟩
+      · intro bytes h
+        simp only [ReadResult.ok.injEq] at h
+        exact ⟨j, h.symm, Or.inr ⟨rfl, hr⟩⟩
+      · intro i h; exact Or.inl (hfin _ _ h)
+    · refine ⟨?_, ?_⟩
+      · intro bytes h
+        obtain ⟨i, hi, hb⟩ := loadThen_ok _ _ _ _ _ _ _ _ _ _ _ _ h
+        exact ⟨i, hb, Or.inl (by rw [ht, hl]; exact hev i hi)⟩
+      · intro i h
+        rcases loadThen_raw _ _ _ _ _ _ _ _ _ _ _ hfin i h with h' | h'
+        · exact Or.inl h'
+        · exact Or.inr (by rw [ht, hl]; exact hev i h')
+  | serializeRaw =>
+    unfold call
+    simp only
+    have hfin : ∀ (s : TState) (i : Nat),
+        ((fun (s : TState) => if EntryPoint.serializeRaw = EntryPoint.serializeRaw then TState.fresh else s) s).raw
+          = some i → s.raw = some i := by
+      intro s i h; simp [TState.fresh] at h
+    split
+    · rename_i j ha hr
+      refine ⟨?_, ?_⟩
+      · intro bytes h
+        simp only [ReadResult.ok.injEq] at h
+        exact ⟨j, h.symm, Or.inr ⟨rfl, hr⟩⟩
+      · intro i h; exact Or.inl (hfin _ _ h)
+    · refine ⟨?_, ?_⟩
+      · intro bytes h
+        obtain ⟨i, hi, hb⟩ := loadThen_ok _ _ _ _ _ _ _ _ _ _ _ _ h
+        exact ⟨i, hb, Or.inl (by rw [ht, hl]; exact hev i hi)⟩
+      · intro i h
+        rcases loadThen_raw _ _ _ _ _ _ _ _ _ _ _ hfin i h with h' | h'
+        · exact Or.inl h'
+        · exact Or.inr (by rw [ht, hl]; exact hev i h')
+
+/-- every log entry of a session is the output of a `call` in the tree / base of that moment -/
+theorem runSess_entries (kfuel fuel : Nat) (cwdS : Str) (cwd : Loc) (loc : Str) (offset length : Nat) :
+    ∀ (steps : List Step) (s : Sess), ∀ e ∈ (runSess kfuel fuel cwdS cwd loc offset length s steps).2,
+      ∃ st, e.events = (call e.fs kfuel fuel cwdS cwd e.base loc offset length e.ep st).2.1 ∧
+        e.res = (call e.fs kfuel fuel cwdS cwd e.base loc offset length e.ep st).1 := by
+  intro steps
+  induction steps with
+  | nil => intro s e he; simp [runSess] at he
+  | cons x xs ih =>
+    intro s e he
+    cases x with
+    | setFS fs => simp only [runSess, stepSess] at he; exact ih _ e he
+    | setBase b => simp only [runSess, stepSess] at he; exact ih _ e he
+    | release => simp only [runSess, stepSess] at he; exact ih _ e he
+    | call ep =>
+      simp only [runSess, stepSess, List.mem_cons] at he
+      rcases he with rfl | he
+      · exact ⟨s.st, rfl, rfl⟩
+      · exact ih _ e he
+
+theorem runSess_bytes (kfuel fuel : Nat) (cwdS : Str) (cwd : Loc) (loc : Str) (offset length : Nat) :
+    ∀ (steps : List Step) (s : Sess) (P : Nat → Prop), (∀ i, s.st.raw = some i → P i) →
+      ∀ e ∈ (runSess kfuel fuel cwdS cwd loc offset length s steps).2, ∀ bytes,
+        e.res = ReadResult.ok bytes →
+        ∃ i, bytes = sliceOf (e.fs.data i) offset length ∧
+          (P i ∨ ∃ e' ∈ (runSess kfuel fuel cwdS cwd loc offset length s steps).2,
+            Ev.openEv (tensorPath e'.base loc) (some i) ∈ e'.events) := by
+  intro steps
+  induction steps with
+  | nil => intro s P _ e he; simp [runSess] at he
+  | cons x xs ih =>
+    intro s P hP e he bytes hb
+    cases x with
+    | setFS fs =>
+      simp only [runSess, stepSess] at he ⊢
+      exact ih { s with fs := fs } P hP e he bytes hb
+    | setBase b =>
+      simp only [runSess, stepSess] at he ⊢
+      exact ih { s with base := b } P hP e he bytes hb
+    | release =>
+      simp only [runSess, stepSess] at he ⊢
+      exact ih { s with st := TState.fresh } P (by intro i h; simp [TState.fresh] at h) e he bytes hb
+    | call ep =>
+      simp only [runSess, stepSess, List.mem_cons] at he ⊢
+      obtain ⟨hres, hstate⟩ := C10_call_result s.fs kfuel fuel cwdS cwd s.base loc offset length ep s.st
+      rcases he with rfl | he
+      · obtain ⟨i, hi, hor⟩ := hres bytes hb
+        refine ⟨i, hi, ?_⟩
+        rcases hor with hev | ⟨_, hraw⟩
+        · exact Or.inr ⟨_, Or.inl rfl, hev⟩
+        · exact Or.inl (hP i hraw)
+      · have := ih _ (fun i => P i ∨ Ev.openEv (tensorPath s.base loc) (some i) ∈
+            (call s.fs kfuel fuel cwdS cwd s.base loc offset length ep s.st).2.1)
+          (by
+            intro i h
+            rcases hstate i h with h' | h'
+            · exact Or.inl (hP i h')
+            · exact Or.inr h') e he bytes hb
+        obtain ⟨i, hi, hor⟩ := this
+        refine ⟨i, hi, ?_⟩
+        rcases hor with (hp | hev) | ⟨e', he', hev⟩
+        · exact Or.inl hp
+        · exact Or.inr ⟨_, Or.inl rfl, hev⟩
+        · exact Or.inr ⟨e', Or.inr he', hev⟩
+
+/-- **C10_session_safe**: for every sequence of steps in the life of an external tensor (calls of
+any entry point, arbitrary changes of the tree between calls, re-assignments of `base_dir`,
+`release()`), starting unmapped: (1) every file opened by any call is a safe open with respect to
+the tree and the base directory at the time of THAT call (every call that opens the path makes the
+check first; a cached mapping never replaces the check); (2) every byte sequence a call returns is
+the slice of an inode that this call or an earlier call of the sequence opened (so, by (1), opened
+safely at that time): a mapped tensor is served from its mapping, which was obtained through a
+checked open. -/
+theorem C10_session_safe (kfuel fuel : Nat) (cwd : Loc) (hfuel : kfuel ≤ fuel) (loc : Str)
+    (offset length : Nat) (s0 : Sess) (h0 : s0.st.raw = none) (steps : List Step)
+    (e : LogEntry) (he : e ∈ (runSess kfuel fuel (render cwd) cwd loc offset length s0 steps).2) :
+    (∀ p i, e.base ≠ [] → RealDir e.fs cwd → Ev.openEv p (some i) ∈ e.events →
+      p = tensorPath e.base loc ∧ SafeOpen e.fs kfuel fuel cwd e.base loc i) ∧
+    (∀ bytes, e.res = ReadResult.ok bytes →
+      ∃ i, bytes = sliceOf (e.fs.data i) offset length ∧
+        ∃ e' ∈ (runSess kfuel fuel (render cwd) cwd loc offset length s0 steps).2,
+          Ev.openEv (tensorPath e'.base loc) (some i) ∈ e'.events) := by
+  refine ⟨?_, ?_⟩
+  · intro p i hb hcwd hm
+    obtain ⟨st, hev, _⟩ := runSess_entries kfuel fuel (render cwd) cwd loc offset length steps s0 e he
+    rw [hev] at hm
+    exact C10_call_open_safe e.fs kfuel fuel cwd hcwd hfuel e.base loc offset length e.ep st hb p i hm
+  · intro bytes hb
+    obtain ⟨i, hi, hor⟩ := runSess_bytes kfuel fuel (render cwd) cwd loc offset length steps s0
+      (fun _ => False) (by intro i h; rw [h0] at h; exact absurd h (by simp)) e he bytes hb
+    rcases hor with hf | h
+    · exact absurd hf id
+    · exact ⟨i, hi, h⟩
+
+/-- the stateful pattern of a skipped re-check is excluded: after a mapping call, `tofile` on a
+tensor whose location now leads outside still makes the check (its events are those of a fresh
+guarded read, whatever the cached state) -/
+example (fs : FS) (kfuel fuel : Nat) (cwdS : Str) (cwd : Loc) (base loc : Str) (offset length : Nat)
+    (st : TState) :
+    (call fs kfuel fuel cwdS cwd base loc offset length EntryPoint.tofile st).2.1 =
+      (read fs kfuel fuel cwdS cwd base loc offset length EntryPoint.tofile).2 := rfl
+
+end IrVerif.Path
